@@ -12,6 +12,14 @@ func init() {
 				ts = append(ts, Task{Pkg: "qrcode/decoder", Func: "VerifC05Format", Args: ints(d), Fresh: true, Timeout: to, Note: "format data (level bits<<3 | mask); two copies, each with a free error mask of <= 3 of 15 bits"})
 				ts = append(ts, Task{Pkg: "qrcode/decoder", Func: "VerifC05FormatTable", Args: ints(d)})
 			}
+			// the real correctErrors (real Reed-Solomon decoder over GF(256)) with one corrupted codeword of
+			// free magnitude at every position of a 1-L block, and at the boundaries of a 1-H block
+			for pos := int64(0); pos < 26; pos++ {
+				ts = append(ts, Task{Pkg: "qrcode/decoder", Func: "VerifC05Correct", Args: ints(19, 7, pos, -1), Note: "data codewords, parity codewords, corrupted position (free non-zero magnitude): every data codeword restored"})
+			}
+			for _, pos := range []int64{0, 8, 9, 25} {
+				ts = append(ts, Task{Pkg: "qrcode/decoder", Func: "VerifC05Correct", Args: ints(9, 17, pos, -1)})
+			}
 			for v := int64(7); v <= 40; v++ {
 				ts = append(ts, Task{Pkg: "qrcode/decoder", Func: "VerifC05Version", Args: ints(v), Fresh: true, Timeout: to, Note: "version; free error mask of <= 3 of 18 bits"})
 			}
